@@ -167,7 +167,9 @@ class C17(PropBase):
         dist = {"exhaustive_same": 0, "exhaustive_paired": 0, "random": 0, "dictionary": 0}
         alpha = [b"a", b".", b"/", b"\\", b":", b"\x00", "\u00e9".encode()]
         ids = ["N", hx("0" * 33), hx("5A9832E5287241C1838ED98914E9B7FF1"), hx("ffffffffffffffffffffffffffffffffffffffff"),
-               hx("5a9832e5287241c1838ed98914e9b7ffA0"), hx("3C0D21E41"), hx("000000000"), hx("3c0d21e4FFFFFFFF")]
+               hx("5a9832e5287241c1838ed98914e9b7ffA0"), hx("3C0D21E41"), hx("000000000"), hx("3c0d21e4FFFFFFFF"),
+               # round 5: the model parses the id to a VALUE and renders it, so non-canonical spellings are compared too
+               hx("0000000000"), hx("5A9832E5287241C1838ED98914E9B7FF0001"), hx("0c0d21e400a0")]
         cids = ["N", "-", hx("5A9832e5"), hx("../..\\x:/G"), hx("f" * 64), hx("zz")]
         k = [0]
 
